@@ -216,7 +216,7 @@ func checkAccountSkip(c *core.Ctx, rule string) {
 		for _, b := range fn.Blocks {
 			for _, in := range b.Instrs {
 				if call, ok := in.(*ssa.Call); ok {
-					if bi, ok := call.Call.Value.(*ssa.Builtin); ok && bi.Name() == "append" && strings.HasSuffix(core.Path(call.Call.Args[0]), ".Accounts") {
+					if bi, ok := call.Call.Value.(*ssa.Builtin); ok && bi.Name() == "append" && strings.HasSuffix(core.Path(core.NormCall(&call.Call).Args[0]), ".Accounts") {
 						appended = b
 					}
 					if sc := call.Call.StaticCallee(); sc != nil && lookup == nil && sc.Signature.Recv() != nil && strings.HasSuffix(sc.Signature.Recv().Type().String(), "accounts.Accounts") && strings.HasPrefix(strings.ToLower(sc.Name()), "get") {
@@ -274,7 +274,7 @@ func checkAccountSkip(c *core.Ctx, rule string) {
 									}
 								}
 								if call, ok := l.(*ssa.Call); ok {
-									if bi, ok := call.Call.Value.(*ssa.Builtin); ok && bi.Name() == "len" && strings.HasSuffix(call.Call.Args[0].Type().String(), "types.Balance") {
+									if bi, ok := call.Call.Value.(*ssa.Builtin); ok && bi.Name() == "len" && strings.HasSuffix(core.NormCall(&call.Call).Args[0].Type().String(), "types.Balance") {
 										nf.balance = true
 									}
 								}
